@@ -235,24 +235,28 @@ theorem viaVisited_iso {fixed : Bool} {s0 : State} {rgen : Option Nat} {dst thr 
           refine hd.stable (VisMono.refl _) ?_
           simp only [State.setEdges, hn, if_false]
 
+/-- Kinds whose unrepaired clone rule bypasses the `visited` map / the shortcut. -/
+def BypassKind (k : Kind) : Prop := k = .cell ∨ k = .aarr ∨ k = .uarr
+
 theorem cloneVal_iso {s0 : State} {dst thr : HeapId} {rgen : Option Nat} {fixed : Bool}
     {Rel : Nat → Prop} (ctx : CloneCtx s0 dst rgen fixed Rel)
-    (hcell : ∀ v o, Rel v → s0.obj v = some o → shareable s0 rgen v = false → o.kind = .cell →
+    (hcell : ∀ v o, Rel v → s0.obj v = some o → shareable s0 rgen v = false → BypassKind o.kind →
       fixed = true) :
     ∀ (f : Nat) (c : Cl) (v : Nat) (c' : Cl) (r : Nat), CI s0 dst c → CI2 s0 Rel c → Rel v →
-      cloneVal dst thr rgen fixed f c v = some (c', r) → IsoPost s0 rgen dst Rel c c' v r := by
+      cloneVal dst thr rgen fixed f false c v = some (c', r) → IsoPost s0 rgen dst Rel c c' v r := by
   intro f
   induction f with
   | zero => intro c v c' r _ _ _ h; simp [cloneVal] at h
   | succ f ih =>
     intro c v c' r hci hci2 hrel h
-    have hkP : ∀ c v c' r, CI s0 dst c → Rel v → cloneVal dst thr rgen fixed f c v = some (c', r) →
-        Post fixed s0 dst thr c c' r := fun c v c' r a b d => cloneVal_post ctx f c v c' r a b d
+    have hkP : ∀ c v c' r, CI s0 dst c → Rel v →
+        cloneVal dst thr rgen fixed f false c v = some (c', r) →
+        Post fixed s0 dst thr c c' r := fun c v c' r a b d => cloneVal_post ctx f false c v c' r a b d
     obtain ⟨o, ho⟩ := ctx.live v hrel
     have hv : v < s0.next := ctx.wf.lt ho
     have hoc : c.s.obj v = some o := by rw [hci.ext.2 v hv]; exact ho
     have hsh := shareable_ext (rgen := rgen) hci.ext hv
-    simp only [cloneVal] at h
+    simp only [cloneVal, Bool.not_false, Bool.true_and] at h
     by_cases hs : shareable s0 rgen v = true
     · rw [hsh, hs] at h
       simp only [if_true, Option.some.injEq, Prod.mk.injEq] at h
@@ -264,7 +268,7 @@ theorem cloneVal_iso {s0 : State} {dst thr : HeapId} {rgen : Option Nat} {fixed 
         · exact absurd hb hs
       rw [hsh, hs'] at h
       simp only [Bool.false_eq_true, if_false, hoc] at h
-      have hedges : o.kind ≠ .thread → ∀ e ∈ o.edges, Rel e := ctx.closed v o hrel ho hs'
+      have hedges : o.kind ≠ .thread → ∀ e ∈ o.edges, Rel e := ctx.closed v o hrel ho
       cases hk : o.kind with
       | udata => simp [hk] at h
       | thread => simp [hk] at h
@@ -278,14 +282,26 @@ theorem cloneVal_iso {s0 : State} {dst thr : HeapId} {rgen : Option Nat} {fixed 
         simp only [hk] at h
         have hnc : isCode s0 v = false := by simp [isCode, ho, hk]
         exact viaVisited_iso _ hkP ih hci hci2 hrel ho (hedges (by simp [hk])) hk.symm hs' hnc h
+      | aarr =>
+        have hfx := hcell v o hrel ho hs' (Or.inr (Or.inl hk))
+        subst hfx
+        simp only [hk, Bool.not_true] at h
+        have hnc : isCode s0 v = false := by simp [isCode, ho, hk]
+        exact viaVisited_iso _ hkP ih hci hci2 hrel ho (hedges (by simp [hk])) hk.symm hs' hnc h
+      | uarr =>
+        have hfx := hcell v o hrel ho hs' (Or.inr (Or.inr hk))
+        subst hfx
+        simp only [hk, Bool.not_true] at h
+        have hnc : isCode s0 v = false := by simp [isCode, ho, hk]
+        exact viaVisited_iso _ hkP ih hci hci2 hrel ho (hedges (by simp [hk])) hk.symm hs' hnc h
       | shallow =>
-        have hfx := ctx.noShallow v o hrel ho hs' hk
+        have hfx := ctx.noShallow v o hrel ho hk
         subst hfx
         simp only [hk, if_true] at h
         have hnc : isCode s0 v = false := by simp [isCode, ho, hk]
         exact viaVisited_iso _ hkP ih hci hci2 hrel ho (hedges (by simp [hk])) hk.symm hs' hnc h
       | cell =>
-        have hfx := hcell v o hrel ho hs' hk
+        have hfx := hcell v o hrel ho hs' (Or.inl hk)
         subst hfx
         simp only [hk, if_true] at h
         have hnc : isCode s0 v = false := by simp [isCode, ho, hk]
@@ -303,7 +319,7 @@ theorem cloneVal_iso {s0 : State} {dst thr : HeapId} {rgen : Option Nat} {fixed 
     * nothing that existed before is modified. -/
 theorem deepClone_iso' {s0 s' : State} {dst thr : HeapId} {rgen : Option Nat} {fixed : Bool}
     {Rel : Nat → Prop} (ctx : CloneCtx s0 dst rgen fixed Rel)
-    (hcell : ∀ v o, Rel v → s0.obj v = some o → shareable s0 rgen v = false → o.kind = .cell →
+    (hcell : ∀ v o, Rel v → s0.obj v = some o → shareable s0 rgen v = false → BypassKind o.kind →
       fixed = true)
     {v0 r : Nat} (hv : Rel v0) (h : deepClone s0 dst thr rgen fixed v0 = some (s', r)) :
     ∃ vis : List (Nat × Nat),
@@ -316,7 +332,7 @@ theorem deepClone_iso' {s0 s' : State} {dst thr : HeapId} {rgen : Option Nat} {f
       (∀ n, s0.next ≤ n → n < s'.next → ∃ x, lookupVis vis x = some n) ∧
       Ext s0 s' := by
   unfold deepClone at h
-  cases hc : cloneVal dst thr rgen fixed (cloneFuel s0) ⟨s0, []⟩ v0 with
+  cases hc : cloneVal dst thr rgen fixed (cloneFuel s0) false ⟨s0, []⟩ v0 with
   | none => simp [hc] at h
   | some p =>
     obtain ⟨c, r'⟩ := p
@@ -326,7 +342,7 @@ theorem deepClone_iso' {s0 s' : State} {dst thr : HeapId} {rgen : Option Nat} {f
     have hci2 : CI2 s0 Rel ⟨s0, []⟩ :=
       ⟨by intro x n h; simp [lookupVis] at h, by intro x y n h; simp [lookupVis] at h,
         by intro n h1 h2; exact absurd h2 (by simpa using h1)⟩
-    have p := cloneVal_post (thr := thr) ctx _ _ _ _ _ hci hv hc
+    have p := cloneVal_post (thr := thr) ctx _ _ _ _ _ _ hci hv hc
     have q := cloneVal_iso (thr := thr) ctx hcell _ _ _ _ _ hci hci2 hv hc
     refine ⟨c.vis, q.res.1, q.res.2, ?_, q.ci2.visInj, q.ci2.onto, p.ext⟩
     intro x n hx
